@@ -62,6 +62,13 @@ func Curated() []*Prog {
 		// a Subscribe in flight while the type becomes (or is found) empty
 		{Name: "subscribe-while-last-handler-leaves", Pre: []Op{SubOp(0, 0, plain)},
 			Tasks: [][]Op{{SubOp(0, 1, plain), PubOp(0)}, {UnsubOp(0, 0)}, {PubOp(0)}}},
+		// a Once handler is unsubscribed and subscribed again (the same function) while the
+		// publish that claimed the first registration is still in flight: retiring the fired
+		// registration must not take the new one with it
+		{Name: "once-resubscribed-while-firing", Pre: []Op{SubOp(0, 0, once), SubOp(0, 1, plain)},
+			Tasks: [][]Op{{PubOp(0)}, {UnsubOp(0, 0), SubOp(0, 0, once), CountOp(0)}}},
+		{Name: "once-async-resubscribed-while-firing", Pre: []Op{SubOp(0, 0, onceAs)},
+			Tasks: [][]Op{{PubOp(0)}, {UnsubOp(0, 0), SubOp(0, 0, onceAs)}}},
 		{Name: "subscribe-while-publishing-to-nobody", Tasks: [][]Op{{SubOp(0, 0, plain), PubOp(0)}, {PubOp(0)}, {SubOp(0, 1, filt), PubOp(0)}}},
 	}
 }
